@@ -75,6 +75,11 @@ class Report:
             raise cdb.AnalysisBroken("rule %s matched %d instance(s), fewer than the %d confirmed on the pinned tree: "
                                      "the construct it is anchored in has gone (vacuous pass refused)" % (rule, n, minimum))
 
+    def defer_broken(self, msg):
+        """An anchor/vacuity problem found by a rule: reported as analysis-broken
+        at the end unless a refuted obligation explains it."""
+        self.deferred = getattr(self, "deferred", []) + [msg]
+
     def add_stats(self, prog):
         s = prog.stats()
         self.configs.append(prog.config.name)
@@ -83,6 +88,8 @@ class Report:
 
     # -- finishing --------------------------------------------------------
     def finish(self):
+        if getattr(self, "deferred", None) and not self.viol:
+            raise cdb.AnalysisBroken("; ".join(self.deferred))
         wall = time.time() - self.t0
         evdir = os.environ.get("VERIF_EVIDENCE_DIR") or os.path.join(VERIF, "evidence")
         os.makedirs(os.path.join(evdir, "violations"), exist_ok=True)
